@@ -187,7 +187,7 @@ class Render:
         if k == "b":
             return t[1]
         if k == "tuple":
-            return "tuple[" + ", ".join(self.T(x) for x in t[1]) + "]"
+            return "tuple[" + (", ".join(self.T(x) for x in t[1]) or "()") + "]"
         if k == "array":
             return f"array[{self.T(t[1])}, {self.T(t[2])}]"
         if k == "fn":
@@ -389,6 +389,11 @@ def _depfwd_body(R, inst):
     ]
 
 
+def _second_body(R, inst):
+    # the whole result type is a type parameter (instantiated with 0-, 1- and 2-tuples, structs, scalars)
+    return ["return y"]
+
+
 def _vsum_body(R, inst):
     return [
         f"s = {R.v('k')}",
@@ -557,7 +562,12 @@ _reg(Tmpl("depfwd", [("T", "type"), ("x", "dep:T")],
           requires=lambda ab: "x" in ab or "T" not in ab,
           calls={"c1": ("dep", [{"T": "own:T", "x": "own:x"}])}, vars_={"y": S("T")}, first_arg="y"))
 
-ROOTS = ["depfwd", "depfwd", "pick", "rot", "wrap", "unbox", "dep", "vsum", "app", "fsc", "fsc", "sel", "sel", "outer1", "outer1",
+_reg(Tmpl("second", [("U", "type"), ("T", "type")],
+          [("x", S("U"), False), ("y", S("T"), False)],
+          S("T"), _second_body,
+          type_pool={"T": TYPE_POOL + [("tuple", ()), ("tuple", (INT,)), ("tuple", (("tuple", (BOOL,)),)), ("tuple", (FLOAT,))]}))
+
+ROOTS = ["second", "second", "depfwd", "depfwd", "pick", "rot", "wrap", "unbox", "dep", "vsum", "app", "fsc", "fsc", "sel", "sel", "outer1", "outer1",
          "outer2", "outer2", "chain", "chain", "twice", "hof", "hof"]
 DEPS = {"depfwd": ["dep"], "outer1": ["pick"], "outer2": ["unbox", "dep"], "chain": ["outer1", "pick"], "twice": ["wrap"], "hof": ["app"]}
 
@@ -834,7 +844,7 @@ class Program:
             ret = subst_ty(t.ret, {s: v for s, v in assign.items()
                                    if isinstance(v, tuple) or (isinstance(v, int) and not isinstance(v, bool))})
             call = f"{name}({', '.join(parts)})"
-            if ret[0] == "tuple":
+            if ret[0] == "tuple" and len(ret[1]) >= 2:
                 names = [f"r{i}_{j}" for j in range(len(ret[1]))]
                 lines.append(f"{', '.join(names)} = {call}")
                 comps = list(zip(names, ret[1]))
